@@ -1637,9 +1637,11 @@ def ppid_map():
         try:
             with open_binary(f"{procfs_path}/{pid}/stat") as f:
                 data = f.read()
-        except (FileNotFoundError, ProcessLookupError):
+        except (FileNotFoundError, ProcessLookupError, PermissionError):
             # Note: we should be able to access /stat for all processes
-            # aka it's unlikely we'll bump into EPERM, which is good.
+            # aka it's unlikely we'll bump into EPERM. If that happens
+            # skip the process instead of leaking a bare OSError out of
+            # Process.children().
             pass
         else:
             rpar = data.rfind(b')')
